@@ -1,6 +1,7 @@
 """C16 — builders are derived completely and type-correctly from the schemas."""
 import collections, json, os, re, sys
 from verifkit.core import *
+from verifkit import gen_c16
 import time
 import verifkit.core as _core
 
@@ -26,6 +27,26 @@ THEOREMS = ["Cog.Builder." + t for t in [
     "C16_exactly_once", "C16_cover_partial", "C16_cover_counterexample", "C16_total_partial",
     "C16_total_counterexample", "C16_dangling_no_builder", "C16_dangling_panicked_before_fix",
 ]]
+# the bodies of FromAST / structObjectToBuilder / fieldIsRefToConcrete / structFieldToOption, translated on this
+# run (extract/xfromast -> Cog.Gen.FromASTSrc), compute the model's functions
+SRC_THEOREMS = ["Cog.Builder." + t for t in [
+    "C16_src_helpers", "C16_src_structObjectToBuilder", "C16_src_fromAST", "C16_source_refines_model"]]
+
+
+def source_tie(c):
+    """Regenerate Cog.Gen.FromASTSrc from the current internal/ast/builder.go.  A refusal of the translator is a
+    broken obligation (the C16_src_* theorems would otherwise be about a stale program)."""
+    ok, detail = gen_c16.regen()
+    c.oblige("translator extract/xfromast accepts internal/ast/builder.go (Cog.Gen.FromASTSrc regenerated)", ok, detail)
+    info = {"regen": detail[:300]}
+    if ok:
+        facts = json.load(open(gen_c16.SRC_JSON))
+        info["translated"] = [{"name": m["name"], "sha256": m["hash"]} for m in facts["translated"]]
+        info["untranslated"] = facts["untranslated"]
+    c.cov["source_tie"] = info
+    return ok
+
+
 # witness -> (harness case, what the real code must still do with it)
 WITNESSES = {
     "optional-const-ref": ("0:0:pinned:optional-const-ref:", "FAIL"),   # counterexample of C16_cover_full (known finding)
@@ -44,14 +65,31 @@ def main():
     c = Check("C16")
     c.trusted = [
         "Lean 4.33 kernel; axioms per theorem are listed in obligation_list (subset of propext, Classical.choice, Quot.sound)",
-        "hand-written model lean/Cog/Builder/FromAST.lean of BuilderGenerator.FromAST (internal/ast/builder.go), tied by the c16-fromast correspondence streams (byte-equal VIR of the builders, panics and divergence included)",
+        "hand-written model lean/Cog/Builder/FromAST.lean of BuilderGenerator.FromAST (internal/ast/builder.go), tied (a) by the C16_src_* theorems: the bodies of FromAST, structObjectToBuilder, fieldIsRefToConcrete, structFieldToOption, translated from the current builder.go on every run, compute the model's fromAST / structObjectToBuilder / fieldIsRefToConcrete / structFieldToOption (whole Outcome compared: value, panic, divergence); (b) by the c16-fromast correspondence streams (byte-equal VIR of the builders, panics and divergence included)",
+        "the translator extract/xfromast (go/ast, syntactic, refuses unknown forms, canonical renaming r/p0../x0.. following Go block scopes with shadowing refused, structs Builder/Option/Argument/OptionDefault/Constructor pinned to their fields) and the Go semantics given to its mini-language in lean/Cog/Builder/Src.lean (structs by value, x.F.G = e, range/continue/return, Iterate callback with captured locals over the association list, short-circuit &&, append/make/composite literals; NOT translated, meaning taken from the model: Type.IsScalar/IsStruct/IsRef/IsConstantRef/IsConcreteScalar/AsScalar/AsStruct, Schemas.ResolveToType (fuel), PathFromStructField, ConstantAssignment, FieldAssignment (closures / variadic options: outside the grammar); calls between translated methods taken from the model, each proved equal to its own body)",
         "VIR encoders harness/vir.go + harness/vir_builders.go and decoders lean/Cog/IR/Vir.lean + lean/Cog/Builder/Vir.lean (round-trip stream vir-roundtrip; a field the encoder does not print is invisible to the comparison: VeneerTrail, PassesTrail)",
         "the ordered map of objects as an association list (C19 refinement theorem); Schemas.ResolveToType with fuel = number of objects + 1 (sufficiency validated by the streams: the harness detects cycles with a visited set and observes the real stack overflow in a child process)",
         "the implementation-side oracle harness/c16_oracle.go (independent restatement of the property on the real output)",
     ]
     hb, err = build_go("verifharness", "harness", files=HARNESS_BASE + ["vir_builders.go", "c16_*.go"], tag="c16")
     c.oblige("harness builds against /repo working tree", hb is not None, err)
-    c.lean_obligations(THEOREMS)
+    tied = source_tie(c)
+    if tied:
+        n0 = len(c.obligations)
+        if not c.lean_obligations(THEOREMS + SRC_THEOREMS) and not c.obligations[n0][1]:
+            # the build broke: say whether it is the source-equivalence layer (a translated body no longer
+            # computes the model's function) or the model's own theorems; the streams below search for an input
+            for mod in ("Cog.Builder.FromASTLemmas", "Cog.Builder.SrcEquiv"):
+                ok, out = lake_build((mod,))
+                c.oblige("diagnostic: module %s builds" % mod, ok,
+                         "\n".join(l for l in out.split("\n") if "error" in l)[:1500] if not ok else "")
+            lake_build(("drv",))   # the driver does not depend on the source tie: the streams still run
+    else:
+        # Cog.Gen.FromASTSrc is stale: the source theorems are not discharged for this tree; the
+        # correspondence streams below are the search for a concrete failing input
+        c.lean_obligations(THEOREMS)
+        for t in SRC_THEOREMS:
+            c.oblige("theorem " + t, False, "translator refused: generated program is stale")
     if hb is None:
         c.finish("lake build && lake env lean <audit>", "n/a")
 
@@ -141,7 +179,7 @@ def main():
     for b in bad_pred[:3]:
         c.violation({"kind": "hypothesis-not-predictive", "why": b[2], "case": b[0][3], "request": b[0][0], "impl": b[0][1], "oracle": b[0][2], "model_predicates": b[1]})
     c.cov["distribution"] = dict(dist)
-    c.finish("cd /verif/lean && lake build Cog drv && lake env lean <#print axioms of the C16_* theorems>; harness c16-fromast (wf, malformed) vs drv fromast; harness oracle; drv c16pred",
+    c.finish("python3 tools/regen.py && cd /verif/lean && lake build Cog.Props.C16 drv && lake env lean <#print axioms of the C16_* theorems>; harness c16-fromast (wf, malformed) vs drv fromast; harness oracle; drv c16pred",
              "random schema sets (shared IR generator + aliases of structs, alias chains, constant objects, required/optional/nullable and cross-package references to constants, constant_ref fields, concrete scalars, constraints; malformed stream adds dangling chains, nil kind pointers, argument-less constraints, alias cycles); non-trivial = output has at least one option and one constructor constant; distinct by (schemas, builders)")
 
 
